@@ -28,6 +28,8 @@ func checkC01(c *Ctx, r *Report) {
 	// encoders that must emit a sorted list (SvcParamKeys of "mandatory", ...) sort what they emit
 	r.rule("C01.R9.sort-own-slice", 1, "an encoder that sorts before writing orders the slice it writes by that slice's own elements")
 	sortOwnSlice(c, r, "C01.R9.sort-own-slice", func(fn string) bool { return strings.HasSuffix(fn, ".pack") || strings.HasPrefix(fn, "pack") })
+	c01NsecBlockRange(c, r, "C01.R2.nsec-block-range")
+	typeTableStructs(c, r, "C01.R4.type-table", "wire data of that type is decoded into a struct of another record type (different name compression, text form and Go type)")
 }
 
 // sideStructs are the hand-written wire-format structs with their packers.
